@@ -70,6 +70,8 @@ pub struct Solver {
     pub secs: f64,
     pub timeout_ms: u64,
     pub last_query: String,
+    pub tag: String,
+    pub slow: Vec<String>,
     buf: String,
 }
 impl Solver {
@@ -78,7 +80,7 @@ impl Solver {
         let mut child = Command::new(bin).args(["-in", "-smt2"]).stdin(Stdio::piped()).stdout(Stdio::piped()).stderr(Stdio::null()).spawn().expect("cannot start z3");
         let inp = child.stdin.take().unwrap();
         let out = BufReader::new(child.stdout.take().unwrap());
-        let mut s = Solver { child, inp, out, queries: 0, n_sat: 0, n_unsat: 0, n_unknown: 0, n_nl: 0, secs: 0.0, timeout_ms, last_query: String::new(), buf: String::new() };
+        let mut s = Solver { child, inp, out, queries: 0, n_sat: 0, n_unsat: 0, n_unknown: 0, n_nl: 0, secs: 0.0, timeout_ms, last_query: String::new(), tag: String::new(), slow: vec![], buf: String::new() };
         s.send("(set-option :global-declarations true)");
         s.send(&format!("(set-option :timeout {})", timeout_ms));
         s
@@ -124,7 +126,9 @@ impl Solver {
             }
         };
         match r { Sat::Sat => self.n_sat += 1, Sat::Unsat => self.n_unsat += 1, Sat::Unknown => self.n_unknown += 1 }
-        self.secs += t0.elapsed().as_secs_f64();
+        let dt = t0.elapsed().as_secs_f64();
+        self.secs += dt;
+        if dt > 3.0 { let m = format!("slow query {:.1}s -> {:?} [{}] nl={} asserts={}", dt, r, self.tag, nonlinear, asserts.len()); if std::env::var("VERIF_SLOWLOG").is_ok() { eprintln!("{}", m); } if self.slow.len() < 4 { self.slow.push(m); } }
         r
     }
     pub fn model(&mut self, names: &[String]) -> String {
